@@ -1,7 +1,7 @@
 (* model runner shared by the correspondence checks of C06, C07 and C09:
    runs each peer's operation list through Model.JsepMid and renders, per
    operation, (status, generated description, transceivers afterwards). *)
-From Coq Require Import List ZArith String Bool.
+From Coq Require Import List ZArith NArith String Ascii Bool.
 Import ListNotations.
 From Verif Require Import Common.V Common.Base Common.JsepNumeral Model.JsepMid.
 Open Scope string_scope.
@@ -48,16 +48,38 @@ Definition S_outcome (o : outcome) : string :=
   end.
 
 (* the transceiver list is printed only when the call changed it ("=" otherwise) *)
+Fixpoint run_peer_full (s : st) (prev : string) (ops : list op) : list V :=
+  match ops with
+  | [] => []
+  | o :: rest =>
+      let '(s', out) := step s o in
+      let cur := join ";" (map S_tr (trs s')) in
+      VS (S_outcome out ++ "|" ++ (if String.eqb cur prev then "=" else cur)) :: run_peer_full s' cur rest
+  end.
+
+(* one operation list per peer; full strings (used when JSEPA_FULL is set, for
+   diagnosis: string literals are very slow to read back into Coq) *)
+Definition run_full (peers : list (list op)) : V := VL (map (fun ops => VL (run_peer_full init "" ops)) peers).
+
+(* default: per call the status and a 55-bit polynomial hash of
+   "description|transceivers" (0 when both are empty / unchanged) *)
+Definition hash_mod : N := 36028797018963913.
+Fixpoint hash_str (s : string) (h : N) : N :=
+  match s with
+  | EmptyString => h
+  | String c r => hash_str r ((h * 131 + N_of_ascii c) mod hash_mod)%N
+  end.
 Fixpoint run_peer (s : st) (prev : string) (ops : list op) : list V :=
   match ops with
   | [] => []
   | o :: rest =>
       let '(s', out) := step s o in
       let cur := join ";" (map S_tr (trs s')) in
-      VS (S_outcome out ++ "|" ++ (if String.eqb cur prev then "=" else cur)) :: run_peer s' cur rest
+      let status := match out with ODone r => S_status r | ODesc r => S_status r end in
+      let body := (match out with ODesc (Ok d) => S_ldesc d | _ => "" end) ++ "|" ++
+                  (if String.eqb cur prev then "=" else cur) in
+      VL [VS status; VN (if String.eqb body "|=" then 0%N else hash_str body 7%N)] :: run_peer s' cur rest
   end.
-
-(* one operation list per peer *)
 Definition run (peers : list (list op)) : V := VL (map (fun ops => VL (run_peer init "" ops)) peers).
 
 (* strconv correspondence: (itoa z, atoi s) *)
